@@ -658,6 +658,11 @@ Lemma sl_put_reslice h s lo hi cp at_ d :
   sl_put h (mkSl (s_arr s) (s_off s + lo) hi cp) at_ d = sl_put h s (lo + at_) d.
 Proof. unfold sl_put. cbn [s_arr s_off]. rewrite Z.add_assoc. reflexivity. Qed.
 
+(* a write through any descriptor of the same array region *)
+Lemma sl_put_eq h s s' at_ at' d : s_arr s = s_arr s' -> s_off s + at_ = s_off s' + at' ->
+  sl_put h s at_ d = sl_put h s' at' d.
+Proof. intros Ha Ho. unfold sl_put. rewrite Ha, Ho. reflexivity. Qed.
+
 (* load / store / copy *)
 Lemma load_ok s i h : 0 <= i < s_len s -> wf_slice h s ->
   load s i h = Ok (znth (sl_get h s) i, h).
@@ -793,4 +798,17 @@ Ltac go_if :=
    case split per condition, beta/iota/zeta in between; branches whose
    conditions contradict each other are closed by lia *)
 Ltac go_run :=
-  repeat first [ go_step | go_if; try lia | progress cbv beta iota zeta ].
+  repeat first [ go_step | go_if; cbn [s_arr s_off s_len s_cap] in *; try lia | progress cbv beta iota zeta
+               | progress cbn [s_arr s_off s_len s_cap] in * ].
+
+(* a call of a generated function whose behaviour is given by the equation E:
+   [callee args h = Ok (a, h')] *)
+Ltac go_call E := rewrite (bind_ok _ _ _ _ _ E).
+
+(* express a write through a sub-slice descriptor as a write through [base] *)
+Ltac go_rebase base :=
+  repeat match goal with
+         | |- context [sl_put ?hh (mkSl ?a ?o ?l ?c) ?at_ ?d] =>
+             rewrite (sl_put_eq hh (mkSl a o l c) base at_ (o - s_off base + at_) d)
+               by (cbn [s_arr s_off]; lia)
+         end.
